@@ -3,7 +3,7 @@ import concurrent.futures as cf
 import json
 import os
 
-from vlib import Infra, action_sig, read_ndjson, save_replay, tlc_mc, tlc_sim, tlc_trace, write_ndjson, write_evidence, open_findings, ROOT, log
+from vlib import Infra, action_sig, tlc_enumerate, read_ndjson, save_replay, tlc_mc, tlc_sim, tlc_trace, write_ndjson, write_evidence, open_findings, ROOT, log
 
 # configuration x concretisation classes: (name, concretisation, manifest settings, behaviour limit factor)
 CLASSES = [
@@ -235,6 +235,15 @@ def check_C12(ctx):
     flags = ['-dirview', '-ballast', '12']
     selftest_binding(ctx, behs[-20:], flags)
     ctx.traces += run_replays(ctx, 'C12', behs, flags, CLASSES[:3], 'c12')
+    # the space "two overlapping table files x every compaction call" enumerated exhaustively by TLC (GEN_Layout): 729 ways to
+    # write two layers over three keys x (strategy cycle + 9 range compactions), then retire + reopen
+    lay = tlc_enumerate(ctx, 'GEN_Layout', 'GEN_Layout.cfg')
+    ctx.notes['layout_behaviours_enumerated'] = len(lay)
+    if ctx.quick():
+        import random
+        lay = random.Random(ctx.seed).sample(lay, 900)
+    nontrivial_c12(ctx, lay)
+    ctx.traces += run_replays(ctx, 'C12', lay, ['-dirview'], [CLASSES[0], ('ascii-bigmem-immsync', 'ascii', {'memtable_size': 1 << 20, 'sync_mode': 2, 'compact_sec': 3600}, 1.0)][:1 if ctx.quick() else 2], 'c12lay')
     ctx.evaluations = ctx.traces
     write_evidence(ctx, 'model_checking',
                    'behaviours drawn by TLC simulation of GEN_Store biased towards flush/compaction (cycle, full-range, sub-range)/retire/reopen, '
